@@ -35,6 +35,8 @@ def scenarios(rng, quick):
             for bad, cls in ((b'v1/inner.txt', 'missing_source_enotdir'), (b'loop/inner.txt', 'missing_source_eloop'), (b'n' * 300, 'missing_source_enametoolong'),
                              (b'vd/inner/x', 'missing_source_enotdir_deep')):
                 sc = base(driver); sc.l(b'/W/loop', b'loop'); sc.opts = ['r']; sc.paths = insert_at(valid + [b'vd'], [bad], pos + 1 if pos == 2 else pos) + [b'DEST']; sc.cls = cls; out.append(sc)
+            # the target is ANOTHER NAME of the source (a hard link: same device and inode), among valid sources
+            sc = base(driver); sc.f(b'/W/hl'); sc.h(b'/W/DEST/hl', b'/W/hl'); sc.opts = ['r']; sc.paths = insert_at(valid + [b'vd'], [b'hl'], pos + 1 if pos == 2 else pos) + [b'DEST']; sc.cls = 'same_file_via_hardlink'; out.append(sc)
             # directory without --recursive
             sc = base(driver); sc.opts = []; sc.paths = insert_at(valid, [b'vd'], pos) + [b'DEST']; sc.cls = 'dir_without_recursive'; out.append(sc)
             # several sources, destination not a directory (absent / file)
@@ -82,7 +84,9 @@ def run(ctx):
             o = treerun.run(basedir, sc)
             # metadata too: nothing created, truncated, touched
             runs.append((i, sc, o))
-        ans = core.ask(core.MODEL, [o.request for _, sc, o in runs if not getattr(sc, 'usage', False) or True])
+        modelled = [(i, sc, o) for i, sc, o in runs if not getattr(sc, 'no_model', False)]
+        got = dict(zip([i for i, _, _ in modelled], core.ask(core.MODEL, [o.request for _, _, o in modelled])))
+        ans = [got.get(i) for i, _, _ in runs]
     for (i, sc, o), a in zip(runs, ans):
         ctx.count(f'class.{sc.cls}'); ctx.count(f'exit.{o.res.cls}')
         ctx.case((sc.cls, tuple(sc.paths), tuple(sc.opts), sc.driver), True,
@@ -101,7 +105,7 @@ def run(ctx):
             if usage and o.res.cls != 'usage':
                 ctx.violation(f'case-{i}-{sc.cls}-usage.json', dict(cls=sc.cls, argv=[repr(x) for x in o.argv], exit=o.res.exit), f'unknown option value ({sc.cls}) not a usage error (exit {o.res.exit})', no_input=True)
         # ---- correspondence: the model's validate
-        if usage:
+        if usage or a is None:          # (hard links are not expressible in the namespace model: oracle only)
             continue
         ctx.cov['traces_validated_against_impl'] += 1
         ex, rej, toks = treerun.model_snapshot(a)
@@ -116,7 +120,7 @@ def run(ctx):
                                                                correspondence='src/main.rs up-front validation vs Xcp.validate'),
                           f'the model does not reject {sc.cls} up front (implementation: {o.res.stderr.strip()[-100:]})', no_input=True)
     ctx.cov['rule'] = ('each rejection class (no source, missing source — ENOENT, ENOTDIR, ELOOP, ENAMETOOLONG —, directory without -r, several sources to a non-directory, directory onto a file, source identical to destination by '
-                       'spelling/symlink/own directory, --force with --no-clobber, unknown option values, malformed or empty glob) x position of the offending argument {first, middle, last} '
+                       'spelling/symlink/hard link/own directory, --force with --no-clobber, unknown option values, malformed or empty glob) x position of the offending argument {first, middle, last} '
                        'x destination state x driver, plus valid twins. exhaustive over this table')
     ctx.cov['exhaustive'] = True
 
